@@ -88,6 +88,7 @@ def batch(msgs, default):
                 nconn = len(s.smsc.conns)
                 seq0 = s.esme.sequence_generator.sequence_num if hasattr(s.esme.sequence_generator, 'sequence_num') else None
                 line = L.show_msg(m)
+                own_sar = any(p.tag in (0x020C, 0x020E, 0x020F) for p in (m.optional_params or []))
                 s.enqueue(m)
                 await asyncio.sleep(0.002)
                 written = [p for p in conn.pdus[n0:] if p[4:8] == b'\x00\x00\x00\x04']
@@ -105,7 +106,7 @@ def batch(msgs, default):
                 await asyncio.sleep(0.002)
                 follow_ok = any(p[4:8] == b'\x00\x00\x00\x04' for p in c2.pdus[m0:])
                 done = s.start_task.done()
-                obs.append(dict(line=line, written=written, errors=errors, follow_ok=follow_ok, ref=refs[r0] if len(refs) > r0 else 0,
+                obs.append(dict(line=line, own_sar=own_sar, written=written, errors=errors, follow_ok=follow_ok, ref=refs[r0] if len(refs) > r0 else 0,
                                 seq=struct.unpack('!I', written[0][12:16])[0] if written else (seq0 + 1 if seq0 is not None else 1),
                                 reconnected=len(s.smsc.conns) > nconn,
                                 ended=(repr(s.start_task.exception()) if done and not s.start_task.cancelled() else None) if done else None,
@@ -119,7 +120,7 @@ def batch(msgs, default):
         stops = [e for e in s.events if e[1] == 'stop-called']
         if ended and (not stops or ended[0][0] < stops[0][0]) and len(obs) < len(msgs) and not (obs and obs[-1]['done']):
             # start() ended while the environment was waiting: the message queued last is the one that did it
-            obs.append(dict(line=L.show_msg(msgs[len(obs)]), written=[], errors=[], follow_ok=False, ref=0, seq=1, reconnected=False,
+            obs.append(dict(line=L.show_msg(msgs[len(obs)]), own_sar=True, written=[], errors=[], follow_ok=False, ref=0, seq=1, reconnected=False,
                             ended=str(ended[0][2]), done=True))
     finally:
         s.close()
@@ -134,7 +135,75 @@ def render(o):
     return 'sent %s' % hexes
 
 
-def predicate(o):
+def parse_submit(p):
+    """independent reading of a submit_sm: (esm_class, short_message octets, [(tag, value octets)])"""
+    i = 16
+
+    def cstr():
+        nonlocal i
+        j = p.index(b'\x00', i)
+        v = p[i:j]
+        i = j + 1
+        return v
+    cstr()
+    i += 2
+    cstr()
+    i += 2
+    cstr()
+    esm = p[i]
+    i += 3
+    cstr()
+    cstr()
+    i += 4
+    ln = p[i]
+    i += 1
+    sm = p[i:i + ln]
+    i += ln
+    tlvs = []
+    while i + 4 <= len(p):
+        tag, tl = struct.unpack('!HH', p[i:i + 4])
+        tlvs.append((tag, p[i + 4:i + 4 + tl]))
+        i += 4 + tl
+    return esm, sm, tlvs
+
+
+def segments_consistent(written):
+    """the PDUs of one message: either one PDU without segmentation data, or n PDUs numbered 1..n of n under one
+    reference, each carrying its segmentation data exactly once (SAR parameters or a concatenation UDH)"""
+    infos = []
+    for p in written:
+        try:
+            esm, sm, tlvs = parse_submit(p)
+        except Exception as e:      # noqa
+            return 'a written submit_sm cannot be read back by an independent parser (%r)' % (e,)
+        sar = {t: v for t, v in tlvs if t in (0x020C, 0x020E, 0x020F)}
+        n_sar = len([1 for t, v in tlvs if t in (0x020C, 0x020E, 0x020F)])
+        if esm & 0x40 and len(sm) >= 6 and sm[1] in (0, 8):
+            if sm[1] == 0:
+                infos.append(('udh', sm[3], sm[4], sm[5]))
+            else:
+                infos.append(('udh', sm[3] * 256 + sm[4], sm[5], sm[6]))
+            continue
+        if n_sar == 0:
+            infos.append(None)
+            continue
+        if n_sar != 3 or len(sar) != 3:
+            return 'a segment carries %d SAR parameters' % n_sar
+        infos.append(('sar', int.from_bytes(sar[0x020C], 'big'), sar[0x020E][0], sar[0x020F][0]))
+    if len(written) == 1:
+        return None
+    if any(x is None for x in infos):
+        return 'a message sent as %d PDUs has a PDU without segmentation data' % len(written)
+    refs = {x[1] for x in infos}
+    if len(refs) != 1:
+        return 'segments of one message carry different reference numbers %s' % sorted(refs)
+    if [x[3] for x in infos] != list(range(1, len(written) + 1)) or any(x[2] != len(written) for x in infos):
+        return 'segments are numbered %s of %s, expected 1..%d of %d' % ([x[3] for x in infos], [x[2] for x in infos],
+                                                                     len(written), len(written))
+    return None
+
+
+def predicate(o, m=None):
     if o['done']:
         return 'start() ended (%s) after the message was queued' % o['ended']
     if not o['follow_ok']:
@@ -145,6 +214,9 @@ def predicate(o):
         return 'the message was neither transmitted nor handed to send_error'
     if o['reconnected'] and o['errors']:
         return 'a message the sender could not build (%s) broke the connection' % o['errors'][0][4]
+    own_sar = o.get('own_sar', True)         # recorded before the message was queued
+    if o['written'] and not o['errors'] and len(o['written']) > 1 and not own_sar:
+        return segments_consistent(o['written'])
     return None
 
 
@@ -159,7 +231,7 @@ def generate(rng, tier):
                 items.append(g)
         obs = batch([m for m, _ in items], default)
         for (m, tag), o in zip(items, obs):
-            fail = predicate(o)
+            fail = predicate(o, m)
             real = render(o)
             line = 'tx %s %d %d %s' % (L.enc_triple(default), o['ref'], o['seq'], o['line'])
             out = real.split(' ')
